@@ -4,6 +4,9 @@ import AsyncsshModel.Base.Path
   * `SFTPServer.map_path` / `reverse_map_path`            (asyncssh/sftp.py)
   * SCP sink: `_parse_cd_args` and the record loop of `_SCPSink._recv_files`  (asyncssh/scp.py)
   * recursive SFTP copy: name joining in `SFTPClient._copy`                    (asyncssh/sftp.py)
+  * glob downloads (`mget`): `SFTPGlob._match_pattern` on the names of a listing and the local top-level name
+    `_begin_copy` derives from each match (`basename`)                          (asyncssh/sftp.py)
+  * `SFTPServer.readlink` under a chroot: the path handed to `realpath`        (asyncssh/sftp.py)
 -/
 namespace AsyncsshModel.PathMap
 
@@ -144,5 +147,65 @@ def copyEntries (pre : List Bytes) : List Entry → List (List Bytes) × Bool
       else
         let (ps2, ab2) := copyEntries pre rest
         ((pre.reverse ++ [n]) :: ps1 ++ ps2, ab2)
+
+/-! ### glob downloads: `SFTPClient.mget(pattern, dest, recurse=True)` -/
+
+/-- `posixpath.basename`: `p[p.rfind(b'/') + 1:]` -/
+def basename (p : Bytes) : Bytes := (splitSlash p).getLast?.getD []
+
+/-- `SFTPGlob._match_pattern` on one name of a directory listing (pattern `*`: every name matches):
+    `.`/`..` are skipped; with the repair (`fixed`) a name containing `/` raises `SFTPBadMessage`;
+    before it such a name was joined onto the directory like any other. -/
+def globNameVerdict (fixed : Bool) (name : Bytes) : NameVerdict :=
+  if name = dot ∨ name = dotdot then .skip
+  else if fixed = true ∧ name.contains slash then .reject
+  else .use
+
+def Entry.name : Entry → Bytes
+  | .file n => n
+  | .dir n _ => n
+
+/-- the matches of `dir/*` over a listing, in listing order; `none`: the match raised -/
+def globMatches (fixed : Bool) : List Entry → Option (List Entry)
+  | [] => some []
+  | e :: rest =>
+    match globNameVerdict fixed e.name with
+    | .skip => globMatches fixed rest
+    | .reject => none
+    | .use => (globMatches fixed rest).map (e :: ·)
+
+/-- `_begin_copy` over the matches: the local name of a match `join(dir, name)` is its `basename`, composed
+    onto the destination; a directory is then copied by `_copy` (`copyEntries`).  Result as for `copyEntries`:
+    destination paths (component lists below the destination the caller named) and whether it aborted. -/
+def beginCopy (dir : Bytes) : List Entry → List (List Bytes) × Bool
+  | [] => ([], false)
+  | .file n :: rest =>
+    let (ps, ab) := beginCopy dir rest
+    ([basename (join dir n)] :: ps, ab)
+  | .dir n ch :: rest =>
+    let top := basename (join dir n)
+    let (ps1, ab1) := copyEntries [top] ch
+    if ab1 then ([top] :: ps1, true)
+    else
+      let (ps2, ab2) := beginCopy dir rest
+      ([top] :: ps1 ++ ps2, ab2)
+
+/-- `mget(dir + b'/*', dest, recurse=True)` against a server presenting `es` as the listing of `dir` -/
+def mget (fixed : Bool) (dir : Bytes) (es : List Entry) : List (List Bytes) × Bool :=
+  match globMatches fixed es with
+  | none => ([], true)
+  | some ms => beginCopy dir ms
+
+/-! ### `SFTPServer.readlink` under a chroot -/
+
+/-- the path `SFTPServer.readlink` resolves (`os.path.realpath`) for a link at the mapped path `lp` whose
+    target string is `t`; `cwd` is the current directory of the server process (what the kernel resolves a
+    relative path against).  With the repair: `os.path.join(os.path.dirname(lp), t)`; before: `t` itself. -/
+def readlinkBase (fixed : Bool) (cwd lp t : Bytes) : Bytes :=
+  join (if fixed then dirname lp else cwd) t
+
+/-- the answer when no symbolic link lies on the way (`realpath` = `normpath`), `none` = `SFTPNoSuchFile` -/
+def readlinkAnswer (fixed : Bool) (root cwd p t : Bytes) : Option Bytes :=
+  reverseMapPath root (normpath (readlinkBase fixed cwd (mapPath root p) t))
 
 end AsyncsshModel.PathMap
